@@ -21,11 +21,14 @@ use super::canon_utils::handle_seen_canon;
 use super::canon_utils::handle_unseen_canon;
 use super::canon_utils::CanonEpilogClosure;
 use super::canon_utils::CreateCanonStreamClosure;
+use super::resolve_peer_id_to_string;
 use super::ExecutionCtx;
 use super::ExecutionResult;
 use super::TraceHandler;
 use crate::execution_step::value_types::CanonStream;
 use crate::execution_step::value_types::CanonStreamWithProvenance;
+use crate::execution_step::Joinable;
+use crate::joinable;
 use crate::log_instruction;
 use crate::trace_to_exec_err;
 
@@ -42,6 +45,9 @@ impl<'i> super::ExecutableInstruction<'i> for ast::Canon<'i> {
     #[tracing::instrument(level = "debug", skip(exec_ctx, trace_ctx))]
     fn execute(&self, exec_ctx: &mut ExecutionCtx<'i>, trace_ctx: &mut TraceHandler) -> ExecutionResult<()> {
         log_instruction!(canon, exec_ctx, trace_ctx);
+        // a peer id that cannot be resolved is a catchable error (or a join): check it before the trace
+        // is touched, because an instruction that fails or waits must not have consumed a state
+        joinable!(resolve_peer_id_to_string(&self.peer_id, exec_ctx), exec_ctx, ())?;
         let epilog = &epilog_closure(self.canon_stream.name);
         let canon_result = trace_to_exec_err!(trace_ctx.meet_canon_start(), self)?;
 
